@@ -3,7 +3,8 @@
    distinct (counters are keyed by id).  Proofs in Proofs/ExecCount*.v. *)
 From Coq Require Import List ZArith Bool Arith.
 From FB Require Import Model.Exec Model.TraceSpec Model.ExecInv.
-From FB Require Proofs.ExecCount Proofs.ExecProps Proofs.ExecTerminal.
+From FB Require Import Model.Settle Judge.E1.
+From FB Require Proofs.ExecCount Proofs.ExecProps Proofs.ExecTerminal Proofs.ExecLock.
 Import ListNotations.
 
 (* each counter is exactly the number of the corresponding observable events, in every reachable state:
@@ -31,6 +32,13 @@ Theorem C16_spec_sound : forall nt T s, wf_net nt = true -> forallb (fun x => Na
   terminal_ok nt (tr s) (map counters_of (nodes s)) = [].
 Proof. exact ExecTerminal.terminal_ok_clean_end. Qed.
 
+(* the clause evaluated on every lockstep snapshot of the implementation (Judge/E1.lock_clauses_node) holds of the
+   snapshot of every node in every reachable state of the model *)
+Theorem C16_lockstep_clause_sound : forall nt T s n, reachable nt T s -> n < length nt ->
+  lock_clauses_node (snap_node (node s n)) = [].
+Proof. exact ExecLock.lock_clause_sound. Qed.
+
 Print Assumptions C16_counters_meaning.
 Print Assumptions C16_accounting_identity.
 Print Assumptions C16_spec_sound.
+Print Assumptions C16_lockstep_clause_sound.
